@@ -590,9 +590,16 @@ def compare(ctx, c, obs, items, C):
         mm = np.abs(mom.reshape(-1, cols))
         flush_col = (colmax > 0) & (colmax <= N * tiny * (1 + 2.0 ** -20))
         daz = (mm > 0) & (mm < tiny)
+        # a column whose largest momentum entry is itself below the rounding noise of the terms it is summed from (exact
+        # cancellation beta1*m_old + w1*pg = 0 in float32, a residue of a few ulps in the binary64 model) has no determinate
+        # payload: per-column scaling maps that residue to +-N.  Classified, not compared.
+        noise_col = colmax <= colscale * tl * 4
         for (i, j) in np.argwhere(dq != 0):
             if flush_col[j] or daz[i, j]:
                 ctx.corr("step.momentum.q.flush_regime(C11 K1/K2)", True)
+                continue
+            if noise_col[j]:
+                ctx.corr("step.momentum.q.cancellation_noise_column", True)
                 continue
             fr = ratio[i, j] - np.floor(ratio[i, j])
             if abs(int(dq[i, j])) == 1 and abs(fr - 0.5) <= delta[j]:
